@@ -49,6 +49,18 @@ TEXT = {
          "Each script run 2-3 times with ASLR on, different environment and cwd; byte-identical stdout and exit status.", "Observation only; a behavioural specification cannot explain nondeterminism.", "6/C23"),
  "C26": ("model_checking", "Lin.tla: Farkas combination computed by TLC on every hooked LA conflict",
          "Coefficients positive, all leaves cancel, constant absurd (integer tightening accounted for).", "Small coefficients only (32-bit TLC arithmetic).", "6/C26"),
+ "C10": ("model_checking", "Proof.tla (names bound, resolution steps, empty root, activations on the stack, leaves implied) evaluated by TLC on every printed proof",
+         "The printed proof is read by the strict reader; every clause of the property statement is a separate monitor; leaves are checked against the roots given to the CNF converter (hook trace) with the kernel.",
+         "Leaf justification uses candidate models (witness-based); the premises of the leaf check come from the give hook.", "6/C10"),
+ "C16": ("model_checking", "NumLit.tla reference reader (BigInt) evaluated by TLC on every literal",
+         "Literal strings through scripts (one assert per literal, value read back with get-value) and through ArithLogic::mkConst; accept/reject and exact value.",
+         "API strings: only well-formed literals are judged (the API is lenient with forms such as .5).", "6/C16"),
+ "C17": ("exploration", "strict SMT-LIB reader + read-back run validated by Script_Trace",
+         "Printed models, values (and echoed terms), full cores, interpolants must read; the printed model is given back to a fresh solver with the assertions.",
+         "Dumped queries (:dump-query) are not covered.", "6/C17"),
+ "C27": ("model_checking", "IntRound.tla identities checked by TLC on a box; boxed LIA/IDL scripts decided exactly by the kernel's grid",
+         "div/mod of both divisor signs (folding and axioms), strict-bound tightening, gcd normalisation, negated difference constraints.",
+         "Identities are checked on -24..24, not for unbounded integers.", "6/C27"),
  "C14": ("model_checking", "Terms!Eval on a grid enumerated by TLC; TermStore.tla design model; Terms_Trace over terms_driver",
          "Every constructor call of Logic/ArithLogic (Boolean connectives, ite, =, distinct, +, -, *, /, div, mod, comparisons, select, store, UF) with the returned term; "
          "TLC searches a grid of interpretations (variables, two interpretations of each function symbol, array values) for a point where result and op(args) differ.",
